@@ -15,7 +15,7 @@ CLAIM = {
              "(R2) sample_combos runs the cases once with to_df and appends that very frame once, reap_samples likewise; (R3) the order/alignment interpretation through case_runner_to_ds(to_df) shows every row pairing a setting with its own outputs "
              "for every configuration incl. shuffle; (R4) gen_cases_fnargs returns the names and the per-case draws of one and the same mapping in one iteration order, per-run combos override the defaults, a callable entry is called and any other "
              "entry is handed to the chooser; (R5) with sync add_df reloads the on-disk table before concatenating (whatever is in memory) and saves after on every normal path; (R6) the pooled grow keeps the batch order (sow/grow/reap route); (R7) the in-memory table is replaced only after a successful save; (R8) constants given when sowing samples take precedence over the runner's stored constants and resources exactly as in a direct run (function evaluated with the values the rows are labelled with). "
-             "Not decided: that np.random.choice returns an allowed value; CSV / pickle round trip."),
+             "(R9) a failing load of the table file propagates and the loader never wipes the in-memory table; (R10) the settings record is read from disk on every load_info. Not decided: that np.random.choice returns an allowed value; CSV / pickle round trip."),
     "note": "Trusted base: pandas.concat([a, b]) appends b's rows after a's; np.random.choice draws from its argument; C01 rules for the enumeration.",
     "technique": "static analysis: role/orientation rules, who-may-store rule, interprocedural D-ORDER through the sampler entry, dict-merge precedence layers, effect-order CFG rules",
 }
